@@ -1,2 +1,2 @@
-import JinnsDriver.Proto
 import JinnsDriver.C09
+import JinnsDriver.Proto
